@@ -429,3 +429,202 @@ theorem inv_reachable {chk : Nat → Nat → Bool} {v0 : Nat} (h0 : chk 0 v0 = t
 end SC
 
 end Woodpile.Abt
+
+namespace Woodpile.Abt.SC
+
+theorem hist_step (chk : Nat → Nat → Bool) (s s' : State) (l : Label)
+    (h : step chk s l = some s') :
+    s'.hist = s.hist ∨
+    ∃ t ts, l = .run t ts ∧ (s.thr t).pc = .aStSeq ∧ s'.hist = s.hist ++ [((s.thr t).ub, (s.thr t).uv)] := by
+  cases l with
+  | sync t u => simp [step] at h; subst h; exact Or.inl rfl
+  | start t op =>
+    simp only [step] at h
+    split at h
+    · simp at h; subst h; exact Or.inl rfl
+    · simp at h
+  | run t ts =>
+    simp only [step] at h
+    generalize hth : s.thr t = th at h
+    obtain ⟨pc, ub, uv, sq, bits, base⟩ := th
+    cases pc <;> simp only [Local.next] at h <;> (try (simp at h; done))
+    case aStSeq =>
+      simp at h; subst h
+      exact Or.inr ⟨t, ts, rfl, by simp [hth], by simp [hth]⟩
+    case uLock =>
+      by_cases hh : s.held = none <;> simp [hh] at h
+      subst h; exact Or.inl rfl
+    case tTry =>
+      by_cases hh : s.held = none <;> simp [hh] at h <;> (subst h; exact Or.inl rfl)
+    all_goals (simp at h; subst h; exact Or.inl rfl)
+
+theorem stale_ignored {chk : Nat → Nat → Bool} {s s' : State} (hI : Inv chk s) (t ts : Nat)
+    (hpc : (s.thr t).pc = .aB)
+    (cur : Nat × Nat) (hcur : s.hist.getLast? = some cur) (hstale : (s.thr t).ub < cur.1)
+    (hs : step chk s (.run t ts) = some s') :
+    (s'.thr t).pc = .aUnlock false ∧ s'.mem = s.mem ∧ s'.hist = s.hist ∧
+    (s'.thr t).feedUnit.pc = .retBool false := by
+  have hheld : s.held = some t := (hI.lock t).1 (by simp [hpc, Pc.inCS])
+  have hw := hI.writer t hheld
+  simp only [WInv, hpc] at hw
+  have hlast : s.hist.getLast? = s.hist[s.mem .seq]? := by
+    rw [List.getLast?_eq_getElem?, hI.len]; simp
+  rw [hlast, hI.cur] at hcur
+  simp at hcur
+  simp only [step] at hs
+  generalize hth : s.thr t = th at hs hpc hw hstale
+  obtain ⟨pc, ub, uv, sq, bits, base⟩ := th
+  simp at hpc hw hstale; subst hpc hw
+  simp only [Local.next] at hs
+  simp at hs; subst hs
+  have : ub < s.mem (.b (odd (s.mem .seq))) := by rw [← hcur] at hstale; exact hstale
+  simp [Local.feedLoad, this, Local.feedUnit]
+
+end Woodpile.Abt.SC
+
+namespace Woodpile.Abt
+
+/-- Steps `try_update` still has to make, at most (its program has no loop). -/
+def tuMeasure : Pc → Nat
+  | .tTry => 9 | .aSeq => 8 | .aV => 7 | .aB => 6 | .aStB => 5 | .aStV => 4 | .aStSeq => 3
+  | .tClear => 2 | .tUnlock => 1 | .aUnlock _ => 1 | .aUnlockPanic => 1
+  | _ => 0
+
+theorem tu_feedLoad (chk : Nat → Nat → Bool) (th : Local) (val : Nat) (l : Loc) (o : Ord)
+    (h : th.next = .load l o) (hm : 0 < tuMeasure th.pc) :
+    tuMeasure (th.feedLoad chk val).pc < tuMeasure th.pc := by
+  obtain ⟨pc, ub, uv, sq, bits, base⟩ := th
+  cases pc <;> simp [Local.next, tuMeasure] at h hm <;> simp [Local.feedLoad, tuMeasure]
+  · by_cases h1 : ub < val <;> by_cases h2 : chk ub uv = true <;> simp [h1, h2]
+
+theorem tu_feedLock (th : Local) (r : LockRes) (h : th.next = .tryLock) :
+    tuMeasure (th.feedLock r).pc < tuMeasure th.pc := by
+  obtain ⟨pc, ub, uv, sq, bits, base⟩ := th
+  cases pc <;> simp [Local.next] at h
+  cases r <;> simp [Local.feedLock, tuMeasure]
+
+theorem tu_feedUnit (th : Local) (hm : 0 < tuMeasure th.pc)
+    (h : ∀ l o, th.next ≠ .load l o) (h' : th.next ≠ .tryLock) :
+    tuMeasure th.feedUnit.pc < tuMeasure th.pc := by
+  obtain ⟨pc, ub, uv, sq, bits, base⟩ := th
+  cases pc <;> simp [Local.next, tuMeasure] at h h' hm <;> simp [Local.feedUnit, tuMeasure]
+
+theorem tu_no_lock (th : Local) (hm : 0 < tuMeasure th.pc) : th.next ≠ .lock ∧ th.next ≠ .none := by
+  obtain ⟨pc, ub, uv, sq, bits, base⟩ := th
+  cases pc <;> simp [tuMeasure] at hm <;> simp [Local.next]
+
+theorem next_lock_iff (th : Local) : th.next = .lock ↔ th.pc = .uLock := by
+  obtain ⟨pc, ub, uv, sq, bits, base⟩ := th
+  cases pc <;> simp [Local.next]
+
+namespace SC
+
+theorem step_none_iff (chk : Nat → Nat → Bool) (s : State) (t ts : Nat) :
+    step chk s (.run t ts) = none ↔
+      ((s.thr t).next = .none ∨ ((s.thr t).pc = .uLock ∧ s.held ≠ none)) := by
+  simp only [step]
+  generalize s.thr t = th
+  obtain ⟨pc, ub, uv, sq, bits, base⟩ := th
+  cases pc <;> simp [Local.next]
+  · by_cases hh : s.held = none <;> simp [hh]
+
+theorem try_nonblocking (chk : Nat → Nat → Bool) (s : State) (t ts : Nat) (hpc : (s.thr t).pc = .tTry) :
+    ∃ s', step chk s (.run t ts) = some s' ∧
+      (s.held ≠ none → (s'.thr t).pc = .retBool false ∧ s'.mem = s.mem ∧ s'.held = s.held ∧ s'.hist = s.hist) := by
+  simp only [step]
+  generalize hth : s.thr t = th at hpc
+  obtain ⟨pc, ub, uv, sq, bits, base⟩ := th
+  simp at hpc; subst hpc
+  simp only [Local.next]
+  by_cases hh : s.held = none
+  · simp [hh]
+  · simp [hh, Local.feedLock]
+
+/-- Own steps a reader still needs when everybody else is frozen. -/
+def soloMeasure (s : State) (t : Nat) : Nat :=
+  let th := s.thr t
+  match th.pc with
+  | .sSeq => 4
+  | .sV => if th.sq = s.mem .seq then 3 else 6
+  | .sB => if th.sq = s.mem .seq then 2 else 5
+  | .sSeq2 => if th.sq = s.mem .seq then 1 else 4
+  | _ => 0
+
+theorem solo_step {chk : Nat → Nat → Bool} {s : State} (hI : Inv chk s) (t : Nat)
+    (hpc : (s.thr t).pc.inSnap = true) :
+    ∃ s', step chk s (.run t 0) = some s' ∧ s'.mem = s.mem ∧
+      (((s'.thr t).pc = .retSnap ∧ soloMeasure s t = 1) ∨
+       ((s'.thr t).pc.inSnap = true ∧ soloMeasure s' t + 1 = soloMeasure s t)) := by
+  have hI' : ∀ s', step chk s (.run t 0) = some s' → Inv chk s' := fun s' h => inv_step chk s s' _ hI h
+  have hrd := hI.reader t
+  simp only [step] at hI' ⊢
+  simp only [soloMeasure]
+  generalize hth : s.thr t = th at hpc hI' hrd
+  obtain ⟨pc, ub, uv, sq, bits, base⟩ := th
+  cases pc <;> simp [Pc.inSnap] at hpc <;> simp only [Local.next] at hI' ⊢
+  · -- sSeq
+    refine ⟨_, rfl, rfl, Or.inr ?_⟩
+    simp [Local.feedLoad, Pc.inSnap]
+  · -- sV
+    refine ⟨_, rfl, rfl, Or.inr ?_⟩
+    simp [Local.feedLoad, Pc.inSnap]
+    split <;> simp
+  · -- sB
+    refine ⟨_, rfl, rfl, Or.inr ?_⟩
+    simp [Local.feedLoad, Pc.inSnap]
+    split <;> simp
+  · -- sSeq2
+    have hI2 := hI' _ rfl
+    have hr2 := hI2.reader t
+    refine ⟨_, rfl, rfl, ?_⟩
+    by_cases h1 : sq = s.mem .seq
+    · left
+      by_cases h2 : chk base bits = true
+      · simp [Local.feedLoad, h1, h2]
+      · simp [Local.feedLoad, h1, h2, RInv] at hr2
+    · right
+      simp [Local.feedLoad, h1, Pc.inSnap]
+
+theorem soloMeasure_le (s : State) (t : Nat) : soloMeasure s t ≤ 6 := by
+  simp only [soloMeasure]
+  split <;> (try split) <;> omega
+
+theorem solo_terminates {chk : Nat → Nat → Bool} (t : Nat) (m : Nat) : ∀ s : State, Inv chk s →
+    (s.thr t).pc.inSnap = true → soloMeasure s t = m →
+    ∃ s', run chk s (List.replicate m (.run t 0)) = some s' ∧ (s'.thr t).pc = .retSnap ∧ s'.mem = s.mem := by
+  induction m with
+  | zero =>
+    intro s _ hpc hm
+    exfalso
+    simp only [soloMeasure] at hm
+    generalize s.thr t = th at hpc hm
+    obtain ⟨pc, ub, uv, sq, bits, base⟩ := th
+    cases pc <;> simp [Pc.inSnap] at hpc <;> simp at hm <;> (split at hm <;> omega)
+  | succ m ih =>
+    intro s hI hpc hm
+    obtain ⟨s1, hs1, hmem, h⟩ := solo_step hI t hpc
+    rcases h with ⟨hret, h1⟩ | ⟨hin, h1⟩
+    · have : m = 0 := by omega
+      subst this
+      exact ⟨s1, by simp [run, hs1], hret, hmem⟩
+    · obtain ⟨s', hs', hret, hmem'⟩ := ih s1 (inv_step chk s s1 _ hI hs1) hin (by omega)
+      exact ⟨s', by simp [List.replicate_succ, run, hs1, hs'], hret, by rw [hmem', hmem]⟩
+
+theorem retry_publish {chk : Nat → Nat → Bool} {s s' : State} (hI : Inv chk s) (t ts : Nat)
+    (hpc : (s.thr t).pc = .sSeq2) (hs : step chk s (.run t ts) = some s') (hretry : (s'.thr t).pc = .sV) :
+    (s.thr t).sq < s.mem .seq ∧ (s.thr t).sq + 1 < s.hist.length ∧ (s'.thr t).sq = s.mem .seq := by
+  have hrd := hI.reader t
+  have hlen := hI.len
+  simp only [step] at hs
+  generalize hth : s.thr t = th at hpc hs hrd
+  obtain ⟨pc, ub, uv, sq, bits, base⟩ := th
+  simp at hpc; subst hpc
+  simp only [Local.next] at hs
+  simp at hs; subst hs
+  simp [RInv] at hrd
+  by_cases h1 : sq = s.mem .seq
+  · by_cases h2 : chk base bits = true <;> simp [Local.feedLoad, h1, h2] at hretry
+  · simp [Local.feedLoad, h1]; omega
+
+end SC
+end Woodpile.Abt
